@@ -428,12 +428,13 @@ func (d *protoDom) glueCall(st *sState, call *ssa.Call, name string, args []sVal
 			set(sOpaque{"asm"})
 			return true
 		}
+		pname := func(i int) string { return asmCanonName(cal.Name(), i, cal.Params[i].Name()) }
 		scalar := func(nm string) (*pt, bool) {
-			for i, prm := range cal.Params {
-				if nm == prm.Name() {
+			for i := range cal.Params {
+				if nm == pname(i) {
 					return termOf(args[i])
 				}
-				if nm == prm.Name()+".len" {
+				if nm == pname(i)+".len" {
 					if sl, ok := args[i].(gSlice); ok {
 						return sl.ln, true
 					}
@@ -448,7 +449,8 @@ func (d *protoDom) glueCall(st *sState, call *ssa.Call, name string, args []sVal
 				e.fail("precondition %s of %s cannot be expressed at %s", factStr(pre), cal.Name(), pos)
 			}
 		}
-		for i, prm := range cal.Params {
+		for i := range cal.Params {
+			prm := namedParam{cal.Params[i], pname(i)}
 			need, has := con.size[prm.Name()]
 			if !has {
 				continue
